@@ -6,6 +6,8 @@ From J5V.model Require Import CodecTypes CodecDecScalar CodecDec CodecDecQuery.
 From J5V.model Require CodecDecTree.
 From J5V.proofs Require Import CodecDecProofs CodecDecQueryProofs JsonLexProofs.
 From J5V.proofs Require CodecDecStored CodecDecReorder CodecDecDenote CodecDecFull.
+From J5V.model Require CodecDecCost.
+From J5V.proofs Require CodecDecCostProofs CodecDecCostBound.
 Import ListNotations.
 Local Open Scope N_scope.
 
@@ -117,15 +119,40 @@ Example C06_example_illtyped_env_excluded :
     [([78], SObject [mkProp [97] [1] false false [] (FScalar KInt32); mkProp [98] [1] false true [] (FObject [78])])] = false.
 Proof. vm_compute. reflexivity. Qed.
 
-(* ------------------------------------------------------------------ the time clause
-   "in time bounded by the input size" is NOT proved as a step count of the descent.  What is proved:
-   the number of Token() calls and of tokens is at most the number of bytes + 1
-   (C06_fuel_in_bytes, C06_lexer_fuel_never_exhausted), the call depth of the descent is at most the number
-   of tokens + 1 (fuel) and at most the constant 10000 property values (C06_nesting_bounded).  Not proved:
-   a bound on the total number of calls / elementary steps of the descent (it would need an instrumented
-   copy of the model); the run's deadline / timing oracle is the only check of it, and the error path of
-   a deeply nested document is known to be quadratic in the depth (capped by the nesting bound). *)
-Definition C06_time_clause_unproved : Prop := True.
+(* ------------------------------------------------------------------ the time clause: a step count
+   model/CodecDecCost.v is the token decoder with a step counter, generated from model/CodecDec.v (same
+   arms, same order): every entry of decode_present / object_body / oneof_body / array_items / map_items /
+   any_body — every decodeX call and every iteration of a body loop of decoder.go — counts one step, on
+   every path (the count is returned next to the outcome, errors included).
+   (1) the counter changes nothing: the first component is the Go-tied model's result;
+   (2) the count is at most (number of bytes + 1), for every input and every outcome.
+   A step is not constant work: a scalar conversion is linear in its token, the end-of-input / token reads
+   are the tokenizer's (one Token() call per token, C06_fuel_in_bytes), the error value of a deeply nested
+   document is built in time quadratic in the depth (capped by the nesting bound), and the model's
+   duplicate-key / seen checks are list scans where Go uses maps. *)
+Theorem C06_step_counter_changes_nothing : forall orc e root bs,
+  fst (CodecDecCost.decode_document_c orc e root bs) = decode_document orc e root bs.
+Proof. exact CodecDecCostProofs.decode_document_c_fst. Qed.
+Print Assumptions C06_step_counter_changes_nothing.
+
+Theorem C06_steps_linear_in_input : forall orc e root bs,
+  (snd (CodecDecCost.decode_document_c orc e root bs) <= length bs + 1)%nat.
+Proof. exact CodecDecCostBound.decode_document_steps. Qed.
+Print Assumptions C06_steps_linear_in_input.
+
+(* per call: a successful decode_present makes at most as many steps as it consumes tokens, a body loop
+   at most one more; on every path at most (tokens given + 1) *)
+Theorem C06_steps_per_call : forall orc e me f, CodecDecCostBound.bound_level orc e me f.
+Proof. exact CodecDecCostBound.bound_all. Qed.
+Print Assumptions C06_steps_per_call.
+
+(* the query decoder: no separate step counter.  Its loops are structural recursions of the model — query_loop
+   over the list of keys, query_at over the components of a dotted path, the element loops over the value
+   list — so their iteration counts are the lengths of those lists by definition; the one non-structural
+   part, the descent on the text of a container-valued parameter, is object_body / oneof_body on that text's
+   tokens, bounded by C06_steps_per_call (at most tokens + 1 steps).  A single inequality for QueryToProto as a
+   whole is not stated. *)
+Definition C06_query_time_clause_unproved : Prop := True.
 
 (* non-vacuity: a recursive environment; a document exercising object, array, map, oneof
    (type-only and with a value), null members and a nested recursive value decodes to a
@@ -166,4 +193,11 @@ Example C06_example_query :
   Ok [(1, VStr [120]); (2, VList [VStr [97]; VStr [98]]); (5, VMsg [(6, VInt 7)])] /\
   is_err (decode_query ex_orc ex_env [78] [([115], [[120]; [121]])]) = true /\
   decode_query ex_orc ex_env [78] [([99], [[32; 123; 34; 115; 34; 58; 34; 113; 34; 125]])] = Ok [(5, VMsg [(1, VStr [113])])].
+Proof. vm_compute. repeat split; reflexivity. Qed.
+
+(* the counter on the example document: 25 steps for 29 tokens / 86 bytes; 3 steps until {"r":[null]} is refused *)
+Example C06_example_steps :
+  snd (CodecDecCost.decode_document_c ex_orc ex_env [78] ex_doc) = 25%nat /\
+  length (fst (lex ex_doc)) = 29%nat /\ length ex_doc = 86%nat /\
+  snd (CodecDecCost.decode_document_c ex_orc ex_env [78] [123;34;114;34;58;91;110;117;108;108;93;125]) = 3%nat.
 Proof. vm_compute. repeat split; reflexivity. Qed.
